@@ -205,7 +205,11 @@ BOUNDED = [bounded("fa_repro.py", "affine", "C15.fa",
                    "(a of both signs and different magnitudes) with UBM, U, V, D transformed accordingly")]
 SHARED = [("C01", "lwl_post", ["C01.lwl.post"]), ("C01", "ll_post", ["C01.ll.post"]), ("C02", "estep_post", ["C02.estep.n", "C02.estep.sum_px", "C02.estep.sum_pxx"]),
           ("C03", "mstep_ml", ["C03.m.means", "C03.m.variances", "C03.m.weights"]), ("C05", "mstep_map", ["C05.means", "C05.variances", "C05.weights"]),
-          ("C08", "post", ["C08.post", "C08.norm"]), ("C10", "projection", ["C10.project"]), ("C06", "estep", ["C06.assign"]), ("C20", "dist", ["C20.dist.ndarray"])]
+          ("C08", "post", ["C08.post", "C08.norm"]), ("C10", "projection", ["C10.project"]), ("C06", "estep", ["C06.assign"]), ("C20", "dist", ["C20.dist.ndarray"]),
+          # the ISV/JFA equivariance lemmas are stated over the leaf contracts: the code must meet them
+          ("C07", "fn_x_all", ["C07.fn_x"]), ("C07", "fn_z_all", ["C07.fn_z"]), ("C07", "leaf_compute_fn_y_i", ["C07.fn_y"]),
+          ("C07", "prec_all", ["C07.prec.x", "C07.prec.y", "C07.prec.z", "C07.uprod", "C07.vprod"]),
+          ("C09", "msteps", ["C09.U.mstep", "C09.V.mstep", "C09.D.mstep"])]
 REPLAY = [("C15.lwl", "gmm_repro.py", "affine", {}), ("C15.estep", "gmm_repro.py", "affine", {}), ("C15.ml", "gmm_repro.py", "affine", {}), ("C15.fa", "fa_repro.py", "affine", {}), ("C15.map", "gmm_repro.py", "map_mstep", {}), ("C15", "gmm_repro.py", "affine", {})]
 TRUSTED = ["rotation invariance of the Euclidean norm (k-means under rotations)", "argmin_k f(k) = argmin_k s^2 f(k) for s != 0",
            "log atoms denote log|.| (so log(a^2 v) = 2 log|a| + log v)"]
